@@ -664,5 +664,27 @@ theorem eval_sim {cfg : Cfg} (hst : cfg.style ≠ .core) (hcap : cfg.capture = t
                     simp only [eval, eraseSow, hk', hl.env_eq, he, e1, f1]
                   · exact ⟨by simp [push, hl.env_eq, hlk2.out_eq], hl.out_eq, hl.cursors_eq, hl.kids_eq,
                             hl.res_sub, hl.kids_ok⟩
+    | nested body m V a =>
+      -- a nested apply runs under `capture := false` whatever the enclosing setting is, on its own store
+      simp only [eval] at h
+      cases he : evalE x l.env a with
+      | error err => simp [he] at h
+      | ok av =>
+        simp only [he] at h
+        by_cases hbs : badStructure V = true
+        · simp [hbs] at h
+        · simp only [hbs, Bool.false_eq_true, if_false] at h
+          have hq : nestedCfg (quiet cfg) = nestedCfg cfg := rfl
+          cases hb : eval (nestedCfg cfg) fuel body [] av {} (Scope.bind m V ["params"]) with
+          | mk res si =>
+            rw [hb] at h
+            cases res with
+            | error e => simp at h
+            | ok li =>
+              simp only [Prod.mk.injEq, Except.ok.injEq] at h
+              obtain ⟨rfl, rfl⟩ := h
+              refine ⟨push (push l' li.out) (digest (mutableVariables si)), t, ?_, ?_, hsim⟩
+              · simp only [eval, eraseSow, hl.env_eq, he, hbs, Bool.false_eq_true, if_false, hq, hb]
+              · exact ⟨by simp [push, hl.env_eq], hl.out_eq, hl.cursors_eq, hl.kids_eq, hl.res_sub, hl.kids_ok⟩
 
 end Flax.ObsSim
